@@ -679,6 +679,13 @@ class Parser:
                             del names[0]
                         else:
                             break
+                    # 'signed' only goes with the integer types and 'char',
+                    # once, and not together with 'unsigned'
+                    if 'signed' in prefixes and (
+                            prefixes['signed'] > 1 or 'unsigned' in prefixes
+                            or names not in ([], ['int'], ['char'])):
+                        raise FFIError("'%s': invalid combination of types"
+                                       % (' '.join(type.names),))
                     # ignore the 'signed' prefix below, and reorder the others
                     newnames = []
                     for prefix in ('unsigned', 'short', 'long'):
